@@ -32,8 +32,9 @@ func minInt(a, b int) int {
 
 func NewValuesByString(m []meta.Leafable, objs ...string) ([]val.Value, error) {
 	var err error
-	if len(objs) < len(m) {
-		// the missing ones would be nil, which no node expects in a key
+	if len(objs) != len(m) {
+		// missing ones would be nil, which no node expects in a key, and surplus
+		// ones name no entry of this list
 		return nil, fmt.Errorf("%w. %d key values given, %d expected", fc.BadRequestError, len(objs), len(m))
 	}
 	l := minInt(len(m), len(objs))
